@@ -2,8 +2,13 @@
 (***************************************************************************)
 (* Validation of GroupBy runs recorded from the real code on key sets and  *)
 (* contexts beyond the exhaustive bounds:                                  *)
-(*   [G, M (sequences of key paths), ctxs (contexts of the filled values,  *)
-(*    in arrival order), groups (sequences of positions)]                  *)
+(*   [G, M (sequences of key paths), ctxs (contexts of the filled values   *)
+(*    when they were filled, in arrival order), now (what the context of   *)
+(*    each value holds at the end - different when the source kept the     *)
+(*    context object and modified it in place for a later value), groups   *)
+(*    (sequences of positions)]                                            *)
+(* A pair of values is compared when it is settled: both readings of       *)
+(* "their contexts" - when filled, at the end - give the same answer.      *)
 (***************************************************************************)
 EXTENDS GroupBySem, IOUtils
 Trace == JsonDeserialize(IOEnv.TRACE_FILE)
@@ -21,7 +26,7 @@ Ok(r) == LET G == SetOf(r.G)  M == SetOf(r.M)  n == Len(r.ctxs) IN
      /\ \A g \in 1..Len(r.groups) : \A j \in 1..(Len(r.groups[g]) - 1) : r.groups[g][j] < r.groups[g][j + 1]
   \* same group exactly when the contexts agree on every selected path
   /\ Mode # "shape" =>
-     \A x, y \in 1..n : x < y =>
+     \A x, y \in 1..n : (x < y /\ (SameGroup(r.ctxs[x], r.ctxs[y], G, M) <=> SameGroup(r.now[x], r.now[y], G, M))) =>
         LET together == GroupIdx(r, x) = GroupIdx(r, y)  same == SameGroup(r.ctxs[x], r.ctxs[y], G, M) IN
         /\ Mode \in {"both", "split"} => (same => together)       \* otherwise the implementation splits a class
         /\ Mode \in {"both", "merged"} => (together => same)      \* otherwise it merges two classes
